@@ -160,6 +160,7 @@ type BldObj struct {
 	Rand    *SimRand
 	Builds  int
 	Default bool // built without WithRNG: reads the process-wide default source
+	Base    []string // base symbol table agreed with the readers (WithSymbols)
 }
 
 type AzObj struct {
@@ -242,6 +243,24 @@ type VM struct {
 	cur     int
 	CurRand *SimRand               // entropy source handed to the library by the current op
 	Ext     map[string]interface{} // oracle-private state
+	loadBuf []byte                 // the verifier's buffer for policy files read from storage, re-used for every file
+}
+
+// loadPolicies hands LoadPolicies the policy file in the verifier's own read buffer: one buffer for
+// every file of the run (the next file is read into the same bytes), and the caller writes over it
+// as soon as the call has returned.
+func (m *VM) loadPolicies(a biscuit.Authorizer, data []byte) error {
+	if len(data) > len(m.loadBuf) {
+		m.loadBuf = make([]byte, 4096+2*len(data))
+	}
+	buf := m.loadBuf[:len(data):len(data)]
+	copy(buf, data)
+	err := a.LoadPolicies(buf)
+	for i := range buf {
+		buf[i] = 0x5a
+	}
+	m.Probe("policy_file_read_buffer_reused")
+	return err
 }
 
 func (m *VM) Probe(name string) { m.Res.Probes[name]++ }
@@ -452,7 +471,7 @@ func (m *VM) addViaLoad(scratch, a biscuit.Authorizer, c *ref.Authz, perm []int,
 		m.Probe("via_load_serialize_failed")
 		return false
 	}
-	if err := a.LoadPolicies(data); err != nil {
+	if err := m.loadPolicies(a, data); err != nil {
 		m.Violate("C18", "fresh-snapshot-does-not-load", "LoadPolicies rejects what SerializePolicies just produced", err.Error())
 		return true
 	}
